@@ -450,4 +450,28 @@ theorem commitChecksInsertedKeysOnly_witness :
        .commit "s1"]).2.getLast? = some .ok := by
   decide
 
+/-! the code after `fix: CREATE TABLE is refused while a transaction the creator does not see holds the name` -/
+
+/-- two open transactions create the same name: the second CREATE is refused with a conflict when it runs (the
+    specification lets it run and refuses the second COMMIT); the first creator's table is the one live relation -/
+theorem createRefusedWhileNameHeld_witness :
+    (run { createRefusedWhileNameHeld := true, commitChecksInsertedKeysOnly := true }
+      [.tick, .begin "s1", .begin "s2", .exec "s1" tdef, .exec "s2" tdef]).2.getLast? = some (.stmt (.err .conflict)) ∧
+    (Spec.run [.tick, .begin "s1", .begin "s2", .exec "s1" tdef, .exec "s2" tdef]).2.getLast?
+      ≠ some (.stmt (.err .conflict)) ∧
+    namesOk (view { createRefusedWhileNameHeld := true, commitChecksInsertedKeysOnly := true }
+      ((run { createRefusedWhileNameHeld := true, commitChecksInsertedKeysOnly := true }
+        [.tick, .begin "s1", .begin "s2", .exec "s1" tdef, .exec "s2" tdef, .commit "s1", .commit "s2"]).1.db.freshSnap
+          { createRefusedWhileNameHeld := true, commitChecksInsertedKeysOnly := true })
+      (run { createRefusedWhileNameHeld := true, commitChecksInsertedKeysOnly := true }
+        [.tick, .begin "s1", .begin "s2", .exec "s1" tdef, .exec "s2" tdef, .commit "s1", .commit "s2"]).1.db.rows) = true := by
+  decide
+
+/-- … also when the holder then rolls back: the refused creator has to try again -/
+theorem createRefusedWhileNameHeld_holder_rolls_back :
+    (run { createRefusedWhileNameHeld := true, commitChecksInsertedKeysOnly := true }
+      [.tick, .begin "s1", .begin "s2", .exec "s1" tdef, .exec "s2" tdef, .rollback "s1", .exec "s2" tdef]).2.drop 4
+      = [.stmt (.err .conflict), .ok, (Spec.run [.tick, .begin "s2", .exec "s2" tdef]).2.getLast?.getD .none] := by
+  decide
+
 end AxVerif.Ddl.C15
